@@ -181,7 +181,7 @@ def main(argv=None):
             print("HARNESS-ERROR", json.dumps(e, default=str)[:1500])
         return 2
     if violations:
-        for v in violations[:5]:
+        for v in violations[:int(os.environ.get("VERIF_ALLV") or 5)]:
             path = write_replay(pid, v)
             print(f"VIOLATION property={pid} replay={path}")
             print("   ", v["obligation"], json.dumps(v.get("model"), default=str)[:300], "::", str(v["msg"])[:300])
